@@ -488,6 +488,27 @@ def run(ck: Check) -> None:
         if p.returncode == 0 and not signed_ok:
             ck.violation("sign-artifacts exited with status zero without having signed", {"stdin": "a terminal; typed " + repr(typed), "stdout": p.stdout.decode("utf-8", "replace")[-200:]}, "cli-sign-zero-unsigned:terminal")
             break
+    # leftovers of a killed run next to the repodata file (lock / temporary / partial / backup files): sign-artifacts signs all the same, or says it did not
+    rf, kf = os.path.join(d, "stale-repodata.json"), os.path.join(d, "stale-key.txt")
+    open(kf, "w").write(k.seed.hex())
+    for suffix in (".lock", ".tmp", ".partial", ".signing-progress", "~"):
+        open(rf, "wb").write(gen.oracle_bytes(good_doc))
+        with open(rf + suffix, "wb") as f:
+            f.write(b"{}")
+        rc, out, err = run_ep("modulePkg", script, ["sign-artifacts", rf, kf], d)
+        os.unlink(rf + suffix) if os.path.exists(rf + suffix) else None
+        ck.evaluations += 1
+        ck.oracle_checks += 1
+        ck.count(f"sign-with-stale-sibling:exit{rc}")
+        try:
+            import json as _json
+            o = _json.loads(open(rf, "rb").read())
+            signed_ok = set(o.get("signatures", {})) == {"a-1.0-0.tar.bz2", "b.conda"}
+        except Exception:  # noqa: BLE001
+            signed_ok = False
+        if rc == 0 and not signed_ok:
+            ck.violation("sign-artifacts exited with status zero without having signed", {"stale_sibling": suffix, "stdout": out[-200:]}, "cli-sign-zero-unsigned:stale-sibling")
+            break
     # gpg-sign without its optional dependency: must not exit zero, must not touch the file
     gf = os.path.join(d, "gpgsign.json")
     gb = gen.oracle_bytes(gen.envelope(gen.root_md([k], 1, [k], 1)))
